@@ -86,6 +86,16 @@ class Play:
         else:
             b = f"B{v}"
             self.L.append(f"block {b} parent={self.cur} view={v} proposer={ld} qc={self.curqc}")
+            if self.adv and agg and self.cur != "G" and rng.random() < 0.5:
+                # the genuine aggregate QC, but the block carries a forged twin of its high QC: same view and
+                # block, signatures of too few replicas — the block's own QC has to verify all the same
+                tw = self.fresh("tw")
+                ps = self.puppets()
+                if not any(l.startswith(f"create-pc {ps[0]} {self.cur} ") for l in self.L):
+                    self.L.append(f"create-pc {ps[0]} {self.cur} v_{self.cur}_{ps[0]}")
+                self.L.append(f"qc {tw} sig=v_{self.cur}_{ps[0]} view={self.curview} hash={self.cur}")
+                self.L.append(f"block {tw}b parent={self.cur} view={v} proposer={ld} qc={tw}")
+                self.L.append(f"deliver propose {tw}b from={ld} agg={agg} expect=inert")
             if self.adv and nl != self.r and rng.random() < 0.12:
                 # the vote for an equivocating leader's first block cannot be sent (next leader unknown
                 # to the sender): it was signed all the same, the second block must be refused
